@@ -341,8 +341,8 @@ func (w *addrWorld) targets(rng *rand.Rand, tier string) []string {
 					all = append(all, fmt.Sprintf("NextInternalAddresses/s:%d/acct:%d/n:%d", si, a, n))
 				}
 				if p, err := s.AccountProperties(ns, a); err == nil {
-					all = append(all, fmt.Sprintf("ExtendExternalAddresses/s:%d/acct:%d/last:%d", si, a, p.ExternalKeyCount+uint32(rng.Intn(2))))
-					all = append(all, fmt.Sprintf("ExtendInternalAddresses/s:%d/acct:%d/last:%d", si, a, p.InternalKeyCount+uint32(rng.Intn(2))))
+					all = append(all, fmt.Sprintf("ExtendExternalAddresses/s:%d/acct:%d/last:%d", si, a, p.ExternalKeyCount+uint32(rng.Intn(3))))
+					all = append(all, fmt.Sprintf("ExtendInternalAddresses/s:%d/acct:%d/last:%d", si, a, p.InternalKeyCount+uint32(rng.Intn(3))))
 				}
 				if a != 0 || rng.Intn(2) == 0 {
 					all = append(all, fmt.Sprintf("RenameAccount/s:%d/acct:%d/name:renamed", si, a))
